@@ -686,6 +686,11 @@ def check(ctx):
     c04.check_polarity(ctx, R="C02.pred.polarity")
     c04.check_fallthrough(ctx, R="C02.pred.exhaustive")
     c04.check_planar(ctx, R="C02.pred.planar")
+    c04.check_computed(ctx, R="C02.pred.computed")
+    c04.check_transforms(ctx, R="C02.pred.transform")
+    from .c03 import check_cache
+
+    check_cache(ctx, R="C02.pred.cache")
     c17.check_occluders(ctx, R="C02.pred.occluders")
     c17.check_plumbing(ctx, R="C02.pred.plumbing")
     from . import c16
